@@ -13,6 +13,7 @@ from magpylib._src.input_checks import check_format_input_obj
 from magpylib._src.obj_classes.class_BaseDisplayRepr import BaseDisplayRepr
 from magpylib._src.obj_classes.class_BaseGeo import BaseGeo
 from magpylib._src.utility import format_obj_input
+from magpylib._src.utility import get_style_label
 from magpylib._src.utility import rec_obj_remover
 
 
@@ -32,7 +33,8 @@ def repr_obj(obj, format="type+id+label"):
     if show_label:
         if show_type:
             tag += " "
-        label = getattr(getattr(obj, "style", None), "label", None)
+        # the style is created lazily: reading the label must not create it
+        label = get_style_label(obj)
         if label is None:
             label = "nolabel" if show_type else f"{type(obj).__name__}"
         tag += label
